@@ -173,7 +173,7 @@ def run(ctx):
     for k, r in enumerate(runs):
         r["run"] = k + 1
         c = byid[r["id"]]
-        for f in ("pages", "q", "kind", "fail", "mode", "start", "prep", "skip", "size", "plan", "rebind"):
+        for f in ("pages", "q", "kind", "fail", "mode", "start", "prep", "skip", "size", "plan", "rebind", "opt"):
             r[f] = c[f]
     byrun = {r["run"]: r for r in runs}      # job number -> job
     nexec = sum(len(r["plan"]) for r in runs)
@@ -255,6 +255,8 @@ def run(ctx):
             (", caller state = token %d" % run["start"]) if run["mode"] == "manual" else "",
             {"query": "QUERY", "exec0": "EXECUTE without values", "exec2": "EXECUTE with 2 values"}[run["prep"]],
             ", skip-metadata" if run["skip"] else "", ", racing schedule %d" % run["sched"] if run["sched"] else "")
+        if run.get("opt", "none") != "none":
+            d += ", option " + run["opt"]
         if len(run["plan"]) > 1:
             d += ", execution %d of the same Query value (plan %s: rows taken before Close, -1 = all%s)" % (
                 ex, run["plan"], "; re-Bind before each re-execution" if run["rebind"] else "")
@@ -307,6 +309,8 @@ def run(ctx):
             what = "%s at trace step %s (%s event): %s; %s" % (f["kind"], f["line"], f["ev"], descr(run, res["exec"]), "; ".join(diffs) or "-")
             if f["what"] == "viol" and f["kind"] not in DRIFT_KINDS:
                 key = "%s/%s/%s" % (f["kind"], run["kind"], run["mode"])
+                if run.get("opt", "none") != "none":
+                    key += "/opt-" + run["opt"]
                 if res["exec"] > 1:
                     key += "/re-executed"
                 e = viol.setdefault(key, dict(n=0, what=what, detail=dict(case=byid[run["id"]], run=run, observed=res, finding=f)))
@@ -336,7 +340,7 @@ def run(ctx):
         model_configs=[dict(cfg="MC_Paging_live (VF_C15_DEV)" if dev else "MC_Paging_full", distinct=mc.distinct, generated=mc.generated, depth=mc.depth),
                        dict(cfg="MC_Paging_live" if quick else "MC_Paging_livefull", distinct=live.distinct, generated=live.generated),
                        dict(cfg="MC_Paging_reexec", distinct=rex.distinct, generated=rex.generated, depth=rex.depth)],
-        samples=[dict(case={k: srun[k] for k in ("pages", "q", "kind", "fail", "mode", "start", "prep", "skip", "size", "sched", "plan", "rebind")},
+        samples=[dict(case={k: srun[k] for k in ("pages", "q", "kind", "fail", "mode", "start", "prep", "skip", "size", "sched", "plan", "rebind", "opt")},
                       expected=byid[srun["id"]]["exp"],
                       observed={k: sample[k] for k in ("exec", "reqs", "rows", "ended", "err", "exposed", "qtok")})],
     )
